@@ -85,11 +85,13 @@ LINES = {"fastq": 4, "fasta2line": 2}
 NUMCOLS = {"bed12": {1: "int", 6: "int", 9: "int", 10: "intlist", 11: "intlist"}, "bed": {1: "int", 2: "int"}, "bed6": {1: "int", 4: "optint", 5: "strand"}, "bdg": {2: "int", 3: "float"},
            "narrowPeak": {4: "optint", 5: "strand", 6: "float", 9: "int"}, "vcf": {1: "int"}, "sam": {1: "int", 3: "int", 4: "int"},
            "gtf": {3: "int", 4: "int"}}
-BADTOK = {"int": ["x", "7x", "x7", "-", "+", "--1", "1-", "1 ", "+-1", "1e3", "1.5x", "4\x105", "\x11", "1\x0b"],
+# long values: the bad character at the start / in the middle / at the end of a text longer than any internal width (9, 18, 19, 20, 21, 40 digits)
+_LONG = ["x" + "0" * 17 + "42", "x" + "0" * 19 + "42", "3.14159265358979323846", "0" * 21 + "x", "1" * 10 + "x" + "1" * 24, "x" + "7" * 40, "1-" + "0" * 20, "100-200", "3+4"]
+BADTOK = {"int": ["x", "7x", "x7", "-", "+", "--1", "1-", "1 ", "+-1", "1e3", "1.5x", "4\x105", "\x11", "1\x0b"] + _LONG,
           "intlist": ["x", "1,2x", "1;2", "-,2", "1,,x", ",x", "1,2,3,4x", "1,2,x,", "1.5,2"],
           "strand": ["K", "\x0b", "\x0e", "*", "k", "\x0d+"],
           "optint": ["x", ".x", "..", "7x", "-", ". ", ".7"],
-          "float": ["x", "1.2.3", "1e", "e5", "--1.0", ".", "-", "1.0x", "1e+", "1_0", "-."]}
+          "float": ["x", "1.2.3", "1e", "e5", "--1.0", ".", "-", "1.0x", "1e+", "1_0", "-.", "2.5e-x", "1x5e3", "twenty", "1e2e3", "1.5e", "x" + "0" * 19 + ".5"]}
 for _f, _cols in NUMCOLS.items():
     for _c, _t in _cols.items():
         KINDS.setdefault(_f, [])
